@@ -53,6 +53,15 @@ func runC05(c *mon.Ctx) {
 				}
 				c.Case("redact-raw:"+string(ver)+":"+typ, map[string]any{"version": ver, "event": string(text), "lookalike_keys": lookalikes}, func() {
 					want := ref.Redact(t.Redaction, ev)
+					if k%3 == 0 {
+						// a history: the redaction before this one fails half-way (an event whose content is no object, with
+						// every optional top-level member the algorithms keep). Nothing of it shows in the next one.
+						if _, perr := impl.RedactEventJSON([]byte(`{"type":"` + typ + `","content":5,"state_key":"left-over","prev_state":["left-over"],"origin":"left.over","event_id":"$left-over","redacts":"$left-over","membership":"left-over","sender":"@left:over","room_id":"!left:over","depth":7,"origin_server_ts":7,"hashes":{"sha256":"x"},"signatures":{"left.over":{"ed25519:x":"y"}},"auth_events":["$left-over"],"prev_events":["$left-over"],"unsigned":{"left":"over"}}`)); perr == nil {
+							c.Count("redactions_of_an_event_without_content_object_accepted")
+						} else {
+							c.Count("redactions_after_a_failed_redaction")
+						}
+					}
 					gin, intact := mon.Guarded(text)
 					out, err := impl.RedactEventJSON(gin)
 					if d := intact(); d != "" {
@@ -163,11 +172,23 @@ func runC05(c *mon.Ctx) {
 						c.Failf("redact:built-event-signature-invalid", "signatures of a freshly built+signed event do not verify over the reference redaction (v%s): %s", ver, orig)
 						return
 					}
-					p, err := impl.NewEventFromTrustedJSON(orig, false)
+					gorig, origIntact := mon.Guarded(orig)
+					p, err := impl.NewEventFromTrustedJSON(gorig, false)
 					if err != nil {
 						c.Failf("redact:reparse-failed", "trusted reparse of built event: %v", err)
 						return
 					}
+					jsonBeforeRedact := append([]byte{}, p.JSON()...)
+					heldBeforeRedact := p.JSON()
+					defer func() {
+						// what the caller held before Redact() - its own buffer, and the JSON() it had read - is as it was
+						if d := origIntact(); d != "" {
+							c.Failf("redact:callers-buffer-written", "Redact() (v%s) on an event loaded from the caller's buffer: %s", ver, d)
+						}
+						if string(heldBeforeRedact) != string(jsonBeforeRedact) {
+							c.Failf("redact:earlier-json-rewritten", "the JSON() read before Redact() (v%s) reads differently afterwards", ver)
+						}
+					}()
 					idBefore, typB, sndB, skB := p.EventID(), p.Type(), string(p.SenderID()), p.StateKey()
 					roomB := ""
 					if s, _, pan := mon.Guard(func() { roomB = p.RoomID().String() }); pan {
@@ -318,6 +339,33 @@ func runC05(c *mon.Ctx) {
 				})
 			}
 		}
+	}
+	// the same redactions from eight goroutines at once: every caller gets the redaction of the event it handed in
+	if c.Shard == 0 {
+		type q struct {
+			impl gmsl.IRoomVersion
+			text []byte
+		}
+		var qs []q
+		cr := c.Rand("concurrent")
+		for _, ver := range versions {
+			t := ref.Traits(string(ver))
+			if t == nil {
+				continue
+			}
+			for _, typ := range []string{"m.room.member", "m.room.message", "m.room.power_levels", "m.room.create"} {
+				for k := 0; k < 3; k++ {
+					qs = append(qs, q{gmsl.MustGetRoomVersion(ver), gen.Plain().Bytes(gen.RawEvent(cr, t, typ, nums))})
+				}
+			}
+		}
+		c.Case("concurrent-calls", map[string]any{"questions": len(qs)}, func() {
+			c.Nontrivial("concurrent-calls")
+			c.ConcurrentReplay("redact", len(qs), func(i int) string {
+				out, err := qs[i].impl.RedactEventJSON(qs[i].text)
+				return fmt.Sprintf("%s %v", out, err != nil)
+			})
+		})
 	}
 	c.Floor("redactions", 200)
 	c.Floor("pdu_redactions", 100)
